@@ -259,6 +259,9 @@ func (d *Decoder) Write(p []byte) (n int, err error) {
 	}
 
 	for len(d.buf) > 0 {
+		// RFC 7541, section 4.2: a header block may start with more than one
+		// dynamic table size update (the smallest size, then the final one).
+		sizeUpdate := d.buf[0]&0xe0 == 0x20
 		err = d.parseHeaderFieldRepr()
 		if err == errNeedMore {
 			// Extra paranoia, making sure saveBuf won't
@@ -273,7 +276,9 @@ func (d *Decoder) Write(p []byte) (n int, err error) {
 			d.saveBuf.Write(d.buf)
 			return len(p), nil
 		}
-		d.firstField = false
+		if !sizeUpdate {
+			d.firstField = false
+		}
 		if err != nil {
 			break
 		}
